@@ -125,3 +125,20 @@ def t_configure_terminal(world):
 _t0 = tasks
 def tasks(tier):
     return _t0(tier) + [('configure_terminal', t_configure_terminal)]
+
+
+
+# ---------------------------------------------------------------- shared with C04.a/b: the per-position valuation behind this property's health figures
+def t_valuation_asset(world):
+    import specs.C04 as C04
+    return C04.t_asset_value(world, 'C07.f.asset')
+
+
+def t_valuation_liab(world):
+    import specs.C04 as C04
+    return C04.t_liab_value(world, 'C07.f.liab')
+
+
+_t_val = tasks
+def tasks(tier):
+    return _t_val(tier) + [('valuation_asset', t_valuation_asset), ('valuation_liab', t_valuation_liab)]
